@@ -337,9 +337,9 @@ def domain_assumptions(va):
     return c
 
 
-def part_a(run, patch=None, account=True):
+def part_a(run, patch=None, account=True, sks=None):
     """-> list of counterexample records"""
-    sks = skeletons(run.tier)
+    sks = sks or skeletons(run.tier)
     recs = []
     L = None
     for i, sk in enumerate(sks):
